@@ -109,6 +109,7 @@ def run(ctx):
     from . import callsigs as _cs
     from . import findings3 as _f3
     _f3.kind_of_appended_values(ctx, 'R18.7')
+    _f3.write_conversions(ctx, 'R18.10')
     _cs.general_rules(ctx, 'R18', ['writer.write', 'writer.overwrite', 'writer.write_simple', 'writer.write_multi', 'writer.partition_on_columns', 'writer.make_part_file', 'writer.make_row_group', 'api.ParquetFile.write_row_groups', 'api.ParquetFile.remove_row_groups', 'api.ParquetFile.to_pandas', 'writer.write_common_metadata', 'writer.consolidate_categories'])
     ar.open_close_pairing_rule(ctx, 'R18.4')
 
